@@ -132,8 +132,14 @@ def effects(fa, rename=None, keep_calls=True, drop_guards=()):
             continue
         # a guard is one term: the condition, or its normalised negation - so that
         # `if not c: A else: B` and `if c: B else: A` give the same guard sets
-        gs = frozenset(((r(c) if pol else T.not_(r(c))), True) for (c, pol) in e.cguards
-                       if not any((d(c) if callable(d) else T.contains(c, d)) for d in drop_guards))
+        gl = []
+        for (c, pol) in e.cguards:
+            if any((d(c) if callable(d) else T.contains(c, d)) for d in drop_guards):
+                continue
+            g = r(c) if pol else T.not_(r(c))
+            # `if a and b:` and `if a: if b:` give the same guards
+            gl.extend(g[1] if g[0] == 'and' else [g])
+        gs = frozenset((g, True) for g in gl)
         out.append((p, gs, e))
     return out
 
@@ -202,6 +208,7 @@ def compare(ctx, rule, fa, ref_source, module=None, known=(), ignore=None, why='
     got = effects(fa, rename, drop_guards=drop_guards)
     want = effects(ref, drop_guards=drop_guards)
     got, want = _inline_one_sided(ctx, got, want)
+    got, want = _renumber_objects(got), _renumber_objects(want)
     if normalize is not None:
         def _n(lst):
             out = []
@@ -387,6 +394,51 @@ def _inline_one_sided(ctx, got, want):
             return out
         got, want = ap(got, only_a), ap(want, only_b)
     return got, want
+
+
+def _is_alloc(x):
+    return isinstance(x, tuple) and len(x) == 4 and x[0] == 'call' and isinstance(x[1], tuple) and x[1][0] == 'g' \
+        and isinstance(x[1][1], str) and x[1][1].startswith(('$new_', '$obj'))
+
+
+def _renumber_objects(eff):
+    """Allocation sites of mutable literals ($new_list(k), $obj(lit, k)) are numbered in evaluation
+    order, which a reordering of independent statements or a swap of if/else arms changes.  Renumber
+    them in order of first appearance over the effects sorted by their text with the numbers masked."""
+    def mask(x):
+        if _is_alloc(x):
+            return ('call', x[1], tuple(a for a in x[2][:-1]) + (T.C('?'),), ())
+        return None
+
+    def key(item):
+        p, gs, _ = item
+        pm = tuple(T.transform(x, mask) if isinstance(x, tuple) and x and isinstance(x[0], str) and T.is_term(x) else x for x in p)
+        gm = sorted(repr(T.transform(c, mask)) for c, _ in gs)
+        return (repr(pm), gm)
+    order = sorted(eff, key=key)
+    table = {}
+    counters = {}
+    for p, gs, _ in order:
+        ts = [x for x in p if isinstance(x, tuple)] + sorted((c for c, _ in gs), key=repr)
+        for t in ts:
+            if not T.is_term(t):
+                continue
+            for x in T.walk(t):
+                if _is_alloc(x) and x not in table:
+                    kind = (x[1], x[2][:-1])
+                    counters[kind] = counters.get(kind, 0) + 1
+                    table[x] = ('call', x[1], tuple(x[2][:-1]) + (T.C(counters[kind]),), ())
+    if all(k == v for k, v in table.items()):
+        return eff
+    # two-step substitution to avoid clashes between old and new numbers
+    tmp = {k: ('call', k[1], tuple(k[2][:-1]) + (T.C(('tmp', i)),), ()) for i, k in enumerate(table)}
+    fin = {tmp[k]: v for k, v in table.items()}
+    out = []
+    for p, gs, e in eff:
+        p2 = tuple(T.subst(T.subst(x, tmp), fin) if isinstance(x, tuple) and T.is_term(x) else x for x in p)
+        gs2 = frozenset((T.subst(T.subst(c, tmp), fin), pol) for c, pol in gs)
+        out.append((p2, gs2, e))
+    return out
 
 
 def _defaults(node):
